@@ -17,18 +17,18 @@ import (
 
 // Call is one sub-request as a fake service received it.
 type Call struct {
-	Service   int                    `json:"service"`
-	HTTPCall  int                    `json:"http_call"` // sequence number of the HTTP call at this service
-	Position  int                    `json:"position"`  // position inside the batch
-	BatchSize int                    `json:"batch_size"`
-	Query     string                 `json:"query"`
-	Variables map[string]interface{} `json:"variables"`
-	OpName    *string                `json:"operationName"`
-	Operation string                 `json:"operation"` // query / mutation / subscription ("" if unparsable)
-	RootFields []string              `json:"root_fields"`
-	Invalid   string                 `json:"invalid,omitempty"` // gqlparser error against the service's OWN schema (C02 oracle)
-	Multipart bool                   `json:"multipart,omitempty"`
-	Files     map[string][]byte      `json:"-"`
+	Service    int                    `json:"service"`
+	HTTPCall   int                    `json:"http_call"` // sequence number of the HTTP call at this service
+	Position   int                    `json:"position"`  // position inside the batch
+	BatchSize  int                    `json:"batch_size"`
+	Query      string                 `json:"query"`
+	Variables  map[string]interface{} `json:"variables"`
+	OpName     *string                `json:"operationName"`
+	Operation  string                 `json:"operation"` // query / mutation / subscription ("" if unparsable)
+	RootFields []string               `json:"root_fields"`
+	Invalid    string                 `json:"invalid,omitempty"` // gqlparser error against the service's OWN schema (C02 oracle)
+	Multipart  bool                   `json:"multipart,omitempty"`
+	Files      map[string][]byte      `json:"-"`
 }
 
 // Fault decides, per received call, whether to misbehave. Return nil for normal service.
